@@ -10,7 +10,12 @@
        BOM under is_compressed() and `@charset "UTF-8";\\n` otherwise; nothing else emits either;
  (iv)  no line break in compressed output: every emitted literal containing `\\n` is the normal
        half of an add_one whose compressed half has none, or sits under a !is_compressed() test,
-       or is the final newline, or belongs to a reviewed site.
+       or is the final newline, or belongs to a reviewed site;
+ (v)   brackets carried by data: the verifier of (i) sees literals only, so every place in the
+       css / output modules that transforms text at character level (chars / split / lines /
+       replace / trim / strip / case mapping) is inventoried against a reviewed table (MIR);
+ (vi)  bytes are removed from the output buffer only under a test that the last byte is a known
+       non-bracket byte (`last() == Some(&b'\\n')`, `Some(&b';')`).
 """
 import json
 import os
@@ -106,8 +111,97 @@ def run(ctx, F):
     # ---------------------------------------------------------------- (iv) newline discipline
     newline_discipline(ctx, tree, writers)
     comment_producers(ctx, prog)
+    text_rewriters(ctx, prog)
+    buffer_trims(ctx, tree)
     ctx.explanation = ("Bracket-height verifier over the AST of all CssBuf/Formatter writers of the css, output and value modules (summaries by fixpoint; branches, match arms, loop bodies, closures, exits); "
                        "CFG pairing of start_block/end_block; shape of the tail of into_buffer; provenance of the is_ascii test and inventory of the marker literals; classification of every emitted literal that contains a line break.")
+
+
+REWRITE_API = re.compile(r"^<str>::(chars|char_indices|split\w*|rsplit\w*|lines|trim\w*|replace\w*|strip_\w+|to_\w*case|repeat|escape_\w+)$")
+
+
+def text_rewriters(ctx, prog):
+    from lib.keys import fn_key, Ordinals
+    table = json.load(open(os.path.join(os.path.dirname(HERE), "tables", "text_rewriters.json")))
+    reviewed = {r["key"]: r["reason"] for r in table["rewriters"]}
+    n = 0
+    for dname in sorted(prog.bodies):
+        head = dname.lstrip("<&")
+        if not (head.startswith("css::") or head.startswith("output::")):
+            continue
+        b = prog.bodies[dname]
+        seen = set()
+        for bi, t in b.calls():
+            api = mir.short(mir.callee_name(t) or "")
+            if not REWRITE_API.match(api):
+                continue
+            key = f"{fn_key(dname, prog)}|{api}"
+            if key in seen:
+                continue
+            seen.add(key)
+            n += 1
+            if key in reviewed:
+                ctx.reviewed("F8-text-rewriters", key, reviewed[key])
+            else:
+                ctx.fail("F8-text-rewriters", key, f"{mir.short(dname)} transforms text at character level with {api}; this site is not in the reviewed table: "
+                         "a transformation of emitted text can drop or add a bracket that the literal analysis cannot see", where=b.where(bi))
+    ctx.floor("character-level text transformations in css / output", n, 10)
+
+
+def buffer_trims(ctx, tree):
+    """every removal of bytes from an output buffer (Vec<u8>) in output::cssbuf / output::cssdata is guarded by
+    a test that the last byte is a fixed non-bracket byte"""
+    n = 0
+    for f in tree.fn_list:
+        if not (f["path"].startswith("output::cssbuf::") or f["path"].startswith("output::cssdata::")):
+            continue
+        for node, conds in _with_conditions(f["body"], []):
+            if not (node.get("e") == "mcall" and node["m"] in ("pop", "truncate", "drain", "remove", "clear", "retain", "split_off")):
+                continue
+            recv = A.show(node["recv"]).strip()
+            n += 1
+            key = f"{f['path']}|{recv}.{node['m']}"
+            ok = False
+            for c in conds:
+                for cmp_ in A.walk(c):
+                    if cmp_.get("e") == "bin" and cmp_["op"] == "==":
+                        l, r = A.show(cmp_["l"]).strip(), A.strip(cmp_["r"])
+                        if l == recv + ".last()":
+                            lits = [x for x in A.walk(r) if x.get("e") == "lit" and x.get("t") in ("byte", "char", "int")]
+                            if len(lits) == 1:
+                                v = lits[0]["v"]
+                                ch = chr(v) if isinstance(v, int) else str(v)
+                                if ch not in "(){}[]":
+                                    ok = True
+            if ok:
+                ctx.ok("F6-buffer-trim", key, "guarded by last() == a fixed non-bracket byte")
+            else:
+                ctx.fail("F6-buffer-trim", key, f"{f['path']} removes bytes from the output buffer ({recv}.{node['m']}) without testing that the last byte is a fixed non-bracket byte: a closing bracket can be removed", where=f["path"])
+    ctx.floor("byte removals from output buffers", n, 4)
+
+
+def _with_conditions(n, conds):
+    """(node, enclosing if/while conditions) for every expression node"""
+    if isinstance(n, list):
+        for x in n:
+            yield from _with_conditions(x, conds)
+        return
+    if not isinstance(n, dict):
+        return
+    if "e" in n:
+        yield n, conds
+    if n.get("e") == "if":
+        yield from _with_conditions(n["cond"], conds)
+        yield from _with_conditions(n["then"], conds + [n["cond"]])
+        if n.get("else") is not None:
+            yield from _with_conditions(n["else"], conds)
+        return
+    if n.get("e") == "while":
+        yield from _with_conditions(n["cond"], conds)
+        yield from _with_conditions(n["body"], conds + [n["cond"]])
+        return
+    for k, v in A.children(n):
+        yield from _with_conditions(v, conds)
 
 
 def _emits_bracket(n):
